@@ -654,9 +654,27 @@ impl<'c, 's> Run<'c, 's> {
             // below the 64 bytes C10 names): whether it assigns is left open — the model follows what the
             // context reports afterwards
             use libmctp::mctp_traits::SMBusMCTPRequestResponse;
+            let (aq, ar) = {
+                let node = &self.nodes[ni];
+                (node.ctx.get_request().get_eid(), node.ctx.get_response().get_eid())
+            };
+            let (op, e) = (b[11], b[12]);
+            // ... but *if* the library did assign the carried EID, "an accepted assignment is answered
+            // with Success, status accepted, and the new EID" applies whatever the request looked like
+            if (op == 0 || op == 1) && (0x01..=0xFE).contains(&e) && (aq, ar) == (e, e) && eids_before != (e, e) && rcap >= 64 {
+                self.eval(Prop::C13, "C13/assignment-answer");
+                let ok = rlen.is_some() && resp.len() >= 16 && resp[11] == 0 && (resp[12] >> 4) & 3 == 0 && resp[13] == e;
+                if !ok {
+                    self.viol(
+                        Prop::C13,
+                        "C13/assign-answer/assigned-but-not-answered-with-success".into(),
+                        format!("node{}: request {} changed the EID to {:#04x} but was answered with {:?}", ni, hex(&b), e, if rlen.is_some() { hex(&resp) } else { "nothing".to_string() }),
+                    );
+                }
+            }
             let node = &mut self.nodes[ni];
-            node.m_eid_req = Some(node.ctx.get_request().get_eid());
-            node.m_eid_resp = Some(node.ctx.get_response().get_eid());
+            node.m_eid_req = Some(aq);
+            node.m_eid_resp = Some(ar);
             self.st.probe("set-eid-outside-property-shape-model-follows-context");
             cause = "after-out-of-shape-set-eid";
         } else if accepted_req && pr.cmd == 0x01 && n >= 14 && pec {
